@@ -33,13 +33,20 @@ type Case struct {
 	// DelayMs: virtual milliseconds the handshake towards a candidate takes (slow paths), by
 	// position in Cands; missing = immediate
 	DelayMs []int `json:"delay_ms,omitempty"`
+	// Cancel: the caller gives up at some moment (a low-priority thread cancels the context:
+	// one deviation puts it at any scheduling point of the race)
+	Cancel bool `json:"cancel,omitempty"`
 }
 
 func (c Case) String() string {
-	if len(c.DelayMs) > 0 {
-		return fmt.Sprintf("cands=%v delays=%vms acceptor=%v", c.Cands, c.DelayMs, c.Acceptor)
+	cn := ""
+	if c.Cancel {
+		cn = " caller-cancels"
 	}
-	return fmt.Sprintf("cands=%v acceptor=%v", c.Cands, c.Acceptor)
+	if len(c.DelayMs) > 0 {
+		return fmt.Sprintf("cands=%v delays=%vms acceptor=%v%s", c.Cands, c.DelayMs, c.Acceptor, cn)
+	}
+	return fmt.Sprintf("cands=%v acceptor=%v%s", c.Cands, c.Acceptor, cn)
 }
 
 const listenAddr = "10.0.0.1:5000"
@@ -94,6 +101,9 @@ func runCase(c Case) {
 		defer wg.Done()
 		ctx, cancel := vrt.WithTimeout(context.Background(), 5*time.Second)
 		defer cancel()
+		if c.Cancel {
+			vrt.GoLow("caller-cancel", "S", func() { cancel() })
+		}
 		conn, err := p.ProbeAndDial(ctx, c.Cands, &tls.Config{}, nil, func(u ice.ProbeUpdate) {
 			if u.State == ice.ProbeStateWon {
 				o.wonUpdates++
@@ -177,6 +187,7 @@ func cfg() vrt.Config {
 	c := vrt.DefaultConfig()
 	c.LockPoints = false
 	c.TimerFirst = false
+	c.LowThreads = true // the caller's cancellation (Case.Cancel) is one deviation away everywhere
 	return c
 }
 
@@ -226,8 +237,9 @@ func main() {
 	}
 	a1, a2, a3, bad := listenAddr, "10.0.0.2:5000", "[fd00::1]:5000", "10.9.9.9:1"
 	type listT struct {
-		c []string
-		d []int
+		c      []string
+		d      []int
+		cancel bool
 	}
 	var lists []listT
 	for _, c := range [][]string{{a1}, {a1, a2}, {a1, a2, a3}, {a1, a1}, {a1, bad}, {bad, a1, a2}, {bad}, {"turn:" + a1}, {a1, "turn:" + a2}, {bad, "turn:" + a1}, {"turn:" + a1, "turn:" + a2}, {bad, "turn:" + a1, "turn:" + a2}, {"not-an-address"}, {}} {
@@ -236,10 +248,14 @@ func main() {
 	// slow paths: a handshake that takes seconds of virtual time (against the 5 s deadline of the
 	// caller, the library's handshake timeout and any budget between the direct and relay phase)
 	lists = append(lists,
-		listT{[]string{a1, a2}, []int{3300, 0}}, listT{[]string{a1, a2}, []int{1000, 1000}},
-		listT{[]string{a1, "turn:" + a2}, []int{3300, 900}}, listT{[]string{a1, "turn:" + a2}, []int{4500, 100}},
-		listT{[]string{bad, a1, "turn:" + a2}, []int{0, 3300, 900}}, listT{[]string{a1, "turn:" + a2}, []int{6000, 0}},
-		listT{[]string{"turn:" + a1, "turn:" + a2}, []int{2500, 0}})
+		listT{c: []string{a1, a2}, d: []int{3300, 0}}, listT{c: []string{a1, a2}, d: []int{1000, 1000}},
+		listT{c: []string{a1, "turn:" + a2}, d: []int{3300, 900}}, listT{c: []string{a1, "turn:" + a2}, d: []int{4500, 100}},
+		listT{c: []string{bad, a1, "turn:" + a2}, d: []int{0, 3300, 900}}, listT{c: []string{a1, "turn:" + a2}, d: []int{6000, 0}},
+		listT{c: []string{"turn:" + a1, "turn:" + a2}, d: []int{2500, 0}})
+	// the caller cancels at any moment of the race
+	for _, c := range [][]string{{a1}, {a1, a2}, {bad, a1}, {"turn:" + a1}, {a1, "turn:" + a2}} {
+		lists = append(lists, listT{c: c, cancel: true})
+	}
 	budget := 170 * time.Second
 	if thorough {
 		budget = 28 * time.Minute
@@ -254,7 +270,7 @@ func main() {
 			if !vlib.Mine(n) {
 				continue
 			}
-			c := Case{Cands: l.c, Acceptor: acc, DelayMs: l.d}
+			c := Case{Cands: l.c, Acceptor: acc, DelayMs: l.d, Cancel: l.cancel}
 			e := &vrt.Explorer{Cfg: cfg(), Bound: bound, Deadline: deadline, Root: func() { runCase(c) }}
 			e.Visit = func(x *vrt.Exec) bool {
 				check(c, x)
